@@ -466,4 +466,348 @@ theorem continuation_main (s : St) (rest : Bytes) (h : s.esc = false) :
   rw [step_bs (by decide) (by decide) ⟨by simp [h], rfl⟩, step_nl_esc rfl]
   cases s; simp_all
 
+
+/-! ### Heredoc arguments -/
+
+theorem isLetter_plain {b : Byte} (h : isLetter b = true) : b ≠ nl ∧ b ≠ sp ∧ b ≠ tab := by
+  refine ⟨?_, ?_, ?_⟩ <;> (intro hb; subst hb; revert h; decide)
+
+/-- a marker line consisting of letters only is read up to and including its newline -/
+theorem tagLine_letters (t : Bytes) (ht : ∀ b ∈ t, isLetter b = true) (acc r : Bytes) :
+    tagLine acc (t ++ nl :: r) = .ok (acc ++ t, r) := by
+  induction t generalizing acc with
+  | nil => simp [tagLine]
+  | cons b t ih =>
+    have hb := ht b (by simp)
+    rw [List.cons_append, tagLine, if_neg (isLetter_plain hb).1, if_pos hb,
+      ih (fun x hx => ht x (by simp [hx]))]
+    simp
+
+/-- the heredoc body ends at the first position where the accumulated value ends with the
+marker -/
+theorem bodyLoop_first (m : Bytes) (y : Bytes) : ∀ (v rest : Bytes), y ≠ [] → m <:+ v ++ y →
+    (∀ n, 0 < n → n < y.length → ¬ m <:+ v ++ y.take n) →
+    bodyLoop m v (y ++ rest) = some ((v ++ y).take ((v ++ y).length - m.length), rest) := by
+  induction y with
+  | nil => intro v rest h; exact absurd rfl h
+  | cons ch y ih =>
+    intro v rest _ hend hfirst
+    rw [List.cons_append, bodyLoop]
+    by_cases hy : y = []
+    · subst hy
+      rw [if_pos ((endsWith_iff _ _).2 hend)]
+      simp
+    · have h1 : ¬ endsWith (v ++ [ch]) m = true := by
+        rw [endsWith_iff]
+        have := hfirst 1 (by omega) (by
+          cases y with
+          | nil => exact absurd rfl hy
+          | cons _ _ => simp)
+        simpa using this
+      rw [if_neg h1, ih (v ++ [ch]) rest hy (by simpa using hend)]
+      · simp
+      · intro n hn hlt
+        have := hfirst (n + 1) (by omega) (by simp; omega)
+        simpa using this
+
+/-- no proper prefix of `x ++ "\n" ++ t` ends with the marker `"\n" ++ t`, i.e. the marker first
+occurs at the very end (the Go loop stops at the first occurrence) -/
+def MarkerFirstAtEnd (t x : Bytes) : Prop :=
+  ∀ n, n < (x ++ nl :: t).length → ¬ (nl :: t) <:+ (x ++ nl :: t).take n
+
+instance (t x : Bytes) : Decidable (MarkerFirstAtEnd t x) := by
+  unfold MarkerFirstAtEnd; infer_instance
+
+theorem bodyLoop_marker (t x rest : Bytes) (h : MarkerFirstAtEnd t x) :
+    bodyLoop (nl :: t) [] (x ++ nl :: t ++ rest) = some (x, rest) := by
+  have := bodyLoop_first (nl :: t) (x ++ nl :: t) [] rest (by simp) (by simp)
+    (fun n _ hn => by simpa using h n hn)
+  rw [List.append_assoc] at this
+  simpa using this
+
+/-- a key made of plain bytes, followed by `=<`, is still a plain word -/
+theorem plainWord_key (k : Bytes) (h : PlainBytes k) : PlainWord (k ++ [eq, lt]) := by
+  obtain ⟨hp, hi⟩ := h
+  refine ⟨by simp, ?_, ?_⟩
+  · intro b hb
+    rw [List.mem_append] at hb
+    rcases hb with hb | hb
+    · exact hp b hb
+    · simp at hb; rcases hb with rfl | rfl <;> decide
+  · intro hinf
+    apply hi
+    rw [← List.reverse_infix] at hinf ⊢
+    have e1 : ([eq, lt, lt] : Bytes).reverse = [lt, lt, eq] := rfl
+    have e2 : (k ++ [eq, lt]).reverse = lt :: eq :: k.reverse := by simp
+    rw [e1, e2, List.infix_cons_iff] at hinf
+    rcases hinf with h | h
+    · rw [List.cons_prefix_cons, List.cons_prefix_cons] at h
+      exact absurd h.2.1 (by decide)
+    · rw [List.infix_cons_iff] at h
+      rcases h with h | h
+      · rw [List.cons_prefix_cons] at h
+        exact absurd h.1 (by decide)
+      · exact h
+
+theorem heredoc_aux (done : List Bytes) (cur : Option Bytes) (k t x tail : Bytes)
+    (hk : PlainBytes k) (ht : ∀ b ∈ t, isLetter b = true) (hne : t ≠ [])
+    (hx : MarkerFirstAtEnd t x) :
+    mainLoop ⟨done, cur, false, true⟩ (k ++ [eq, lt, lt] ++ t ++ [nl] ++ x ++ [nl] ++ t ++ tail)
+      = mainLoop ⟨St.args ⟨done, cur, false, true⟩, some (k ++ [eq] ++ trimBlank x), false, false⟩
+          tail := by
+  have e : k ++ [eq, lt, lt] ++ t ++ [nl] ++ x ++ [nl] ++ t ++ tail
+      = (k ++ [eq, lt]) ++ lt :: (t ++ nl :: (x ++ nl :: t ++ tail)) := by simp
+  rw [e, word_sep _ _ _ _ (plainWord_key k hk)]
+  rw [step_hd (c := k ++ [eq, lt]) (tag := t) (rest1 := x ++ nl :: t ++ tail) (value := x)
+        (rest2 := tail) (by decide) (by decide) (by simp; decide) (by rw [open_unsep])
+        (fun h => absurd h.2 (by decide))
+        ⟨by rw [open_unsep]; simp, rfl, (endsWith_iff _ _).2 ⟨k, rfl⟩⟩
+        (by simpa using tagLine_letters t ht [] _) hne (bodyLoop_marker t x tail hx)]
+  rw [open_unsep]
+  have : (k ++ [eq, lt]).take ((k ++ [eq, lt]).length - 1) = k ++ [eq] := by
+    have e3 : k ++ [eq, lt] = (k ++ [eq]) ++ [lt] := by simp
+    rw [e3, List.length_append, List.length_singleton, Nat.add_sub_cancel, List.take_left']
+    rfl
+  rw [this]
+
+theorem heredoc_main (k t x rest : Bytes)
+    (hk : PlainBytes k) (ht : ∀ b ∈ t, isLetter b = true) (hne : t ≠ [])
+    (hx : MarkerFirstAtEnd t x) :
+    readArgs (k ++ [eq, lt, lt] ++ t ++ [nl] ++ x ++ [nl] ++ t ++ nl :: rest)
+      = .ok [k ++ [eq] ++ trimBlank x] false rest := by
+  rw [readArgs, heredoc_aux [] none k t x (nl :: rest) hk ht hne hx, step_nl (by simp)]
+  rfl
+
+
+/-! ### `natKey` is injective -/
+
+theorem byteArray_toList_loop (bs : ByteArray) (i : Nat) (r : List UInt8) :
+    ByteArray.toList.loop bs i r = r.reverse ++ bs.data.toList.drop i := by
+  fun_induction ByteArray.toList.loop bs i r with
+  | case1 i r h ih =>
+    rw [ih]
+    cases bs with
+    | mk d =>
+      have hi : i < d.toList.length := by rw [Array.length_toList]; exact h
+      rw [List.drop_eq_getElem_cons hi]
+      have : ByteArray.get! ⟨d⟩ i = d.toList[i] := by
+        have hi' : i < d.size := h
+        simp [ByteArray.get!, hi']
+      rw [this]; simp
+  | case2 i r h =>
+    cases bs with
+    | mk d =>
+      have hi : d.toList.length ≤ i := by rw [Array.length_toList]; exact Nat.le_of_not_lt h
+      rw [List.drop_eq_nil_of_le hi]; simp
+
+theorem byteArray_toList (bs : ByteArray) : bs.toList = bs.data.toList := by
+  simp [ByteArray.toList, byteArray_toList_loop]
+
+theorem str_injective {a b : String} (h : str a = str b) : a = b := by
+  unfold str at h
+  rw [byteArray_toList, byteArray_toList] at h
+  have h2 : a.toUTF8 = b.toUTF8 := ByteArray.ext (Array.toList_inj.1 h)
+  exact String.toByteArray_inj.1 h2
+
+theorem natKey_injective {m n : Nat} (h : natKey m = natKey n) : m = n := by
+  unfold natKey at h
+  have h1 := str_injective h
+  have h2 : toString m = toString n := (String.append_right_inj "$").1 h1
+  exact Nat.repr_injective h2
+
+
+theorem str_append (a b : String) : str (a ++ b) = str a ++ str b := by
+  unfold str
+  rw [byteArray_toList, byteArray_toList, byteArray_toList]
+  simp
+
+theorem str_dollar : str "$" = [36] := by
+  unfold str
+  rw [byteArray_toList]
+  decide
+
+/-- every positional key starts with `$` -/
+theorem natKey_head (i : Nat) : (natKey i).head? = some 36 := by
+  unfold natKey
+  rw [str_append, str_dollar]; rfl
+
+/-! ### `List.span` -/
+
+theorem span_loop_pos {α} (p : α → Bool) (a r acc : List α) (h : ∀ x ∈ a, p x = true) :
+    List.span.loop p (a ++ r) acc = List.span.loop p r (a.reverse ++ acc) := by
+  induction a generalizing acc with
+  | nil => rfl
+  | cons x a ih =>
+    rw [List.cons_append, List.span.loop, h x (by simp)]
+    simp only
+    rw [ih _ (fun y hy => h y (by simp [hy]))]
+    simp
+
+theorem span_all {α} (p : α → Bool) (a : List α) (h : ∀ x ∈ a, p x = true) :
+    a.span p = (a, []) := by
+  have := span_loop_pos p a [] [] h
+  rw [List.append_nil] at this
+  rw [List.span, this]; simp [List.span.loop]
+
+theorem span_first {α} (p : α → Bool) (a : List α) (b : α) (s : List α)
+    (h : ∀ x ∈ a, p x = true) (hb : p b = false) :
+    (a ++ b :: s).span p = (a, b :: s) := by
+  rw [List.span, span_loop_pos p a (b :: s) [] h, List.span.loop, hb]; simp
+
+/-! ### `SeparateArgs` -/
+
+theorem separateArgs_none (all : List Bytes) (h : dashdash ∉ all) :
+    separateArgs all = (all, []) := by
+  unfold separateArgs
+  rw [span_all (fun x => decide (x ≠ dashdash)) all
+    (fun x hx => decide_eq_true (show x ≠ dashdash from fun e => h (e ▸ hx)))]
+
+theorem separateArgs_split (a s : List Bytes) (h : dashdash ∉ a) :
+    separateArgs (a ++ dashdash :: s) = (a, s) := by
+  unfold separateArgs
+  rw [span_first (fun x => decide (x ≠ dashdash)) a dashdash s
+    (fun x hx => decide_eq_true (show x ≠ dashdash from fun e => h (e ▸ hx)))
+    (decide_eq_false (fun h => h rfl))]
+
+/-! ### `InjectArgs` -/
+
+/-- the positional arguments: those without `=` -/
+def positionals (args : List Bytes) : List Bytes := args.filter (fun a => !a.contains eq)
+
+/-- the key under which a named argument (one containing `=`) is stored -/
+def namedKey (a : Bytes) : Bytes := (splitEq (trimDash (trimDash a))).1
+
+theorem positionals_named (a : Bytes) (l : List Bytes) (h : a.contains eq = true) :
+    positionals (a :: l) = positionals l := by
+  unfold positionals
+  rw [List.filter_cons_of_neg (by rw [h]; simp)]
+
+theorem positionals_pos (a : Bytes) (l : List Bytes) (h : ¬ a.contains eq = true) :
+    positionals (a :: l) = a :: positionals l := by
+  unfold positionals
+  rw [List.filter_cons_of_pos (by rw [Bool.not_eq_true] at h; rw [h]; simp)]
+
+theorem lookupLast_cons_ne (k : Bytes) (p : Bytes × Bytes) (l : List (Bytes × Bytes))
+    (h : p.1 ≠ k) : lookupLast k (p :: l) = lookupLast k l := by
+  obtain ⟨k', v⟩ := p
+  rw [lookupLast]
+  split
+  · next w hw => exact hw.symm
+  · next hn => rw [if_neg h, hn]
+
+theorem lookupLast_cons_eq (k v : Bytes) (l : List (Bytes × Bytes))
+    (h : lookupLast k l = none) : lookupLast k ((k, v) :: l) = some v := by
+  rw [lookupLast, h]; simp
+
+theorem lookupLast_none (k : Bytes) (l : List (Bytes × Bytes)) (h : ∀ p ∈ l, p.1 ≠ k) :
+    lookupLast k l = none := by
+  induction l with
+  | nil => rfl
+  | cons p l ih =>
+    rw [lookupLast_cons_ne k p l (h p (by simp))]
+    exact ih (fun q hq => h q (by simp [hq]))
+
+theorem lookupLast_append_none (k : Bytes) (l1 l2 : List (Bytes × Bytes))
+    (h : lookupLast k l2 = none) : lookupLast k (l1 ++ l2) = lookupLast k l1 := by
+  induction l1 with
+  | nil => rw [List.nil_append, h]; rfl
+  | cons p l ih =>
+    obtain ⟨k', v⟩ := p
+    rw [List.cons_append, lookupLast, lookupLast, ih]
+
+theorem lookupLast_append_some (k w : Bytes) (l1 l2 : List (Bytes × Bytes))
+    (h : lookupLast k l2 = some w) : lookupLast k (l1 ++ l2) = some w := by
+  induction l1 with
+  | nil => simpa using h
+  | cons p l ih =>
+    obtain ⟨k', v⟩ := p
+    rw [List.cons_append, lookupLast, ih]
+
+theorem injectSets_named (i : Nat) (a : Bytes) (rest : List Bytes) (h : a.contains eq = true) :
+    injectSets i (a :: rest) = splitEq (trimDash (trimDash a)) :: injectSets i rest := by
+  rw [injectSets, if_pos h]
+
+theorem injectSets_pos (i : Nat) (a : Bytes) (rest : List Bytes) (h : ¬ a.contains eq = true) :
+    injectSets i (a :: rest) = (natKey i, a) :: injectSets (i + 1) rest := by
+  rw [injectSets, if_neg h]
+
+theorem injectSets_append (i : Nat) (l1 l2 : List Bytes) :
+    injectSets i (l1 ++ l2) = injectSets i l1 ++ injectSets (i + (positionals l1).length) l2 := by
+  induction l1 generalizing i with
+  | nil => simp [injectSets, positionals]
+  | cons a l ih =>
+    by_cases h : a.contains eq = true
+    · rw [List.cons_append, injectSets_named _ _ _ h, injectSets_named _ _ _ h, ih,
+        positionals_named _ _ h]
+      rfl
+    · rw [List.cons_append, injectSets_pos _ _ _ h, injectSets_pos _ _ _ h, ih,
+        positionals_pos _ _ h, List.length_cons, Nat.add_assoc, Nat.add_comm 1]
+      rfl
+
+theorem length_injectSets (i : Nat) (l : List Bytes) : (injectSets i l).length = l.length := by
+  induction l generalizing i with
+  | nil => rfl
+  | cons a l ih =>
+    by_cases h : a.contains eq = true
+    · rw [injectSets_named _ _ _ h]; simp [ih]
+    · rw [injectSets_pos _ _ _ h]; simp [ih]
+
+/-- key `$n` after the `SetValue` calls numbered from `j`: found iff `j ≤ n` and there are more
+than `n - j` positional arguments -/
+theorem lookup_natKey (n : Nat) (args : List Bytes)
+    (hcol : ∀ a ∈ args, a.contains eq = true → namedKey a ≠ natKey n) (j : Nat) :
+    lookupLast (natKey n) (injectSets j args)
+      = if n < j then none else (positionals args)[n - j]? := by
+  induction args generalizing j with
+  | nil => simp [injectSets, positionals, lookupLast]
+  | cons a rest ih =>
+    have ih' := ih (fun b hb => hcol b (by simp [hb]))
+    by_cases h : a.contains eq = true
+    · rw [injectSets_named _ _ _ h, lookupLast_cons_ne _ _ _ (hcol a (by simp) h), ih' j,
+        positionals_named _ _ h]
+    · rw [injectSets_pos _ _ _ h]
+      rw [positionals_pos _ _ h]
+      by_cases hnj : n = j
+      · subst hnj
+        rw [lookupLast_cons_eq _ _ _ (by rw [ih']; simp)]
+        simp
+      · rw [lookupLast_cons_ne _ _ _ (fun e => hnj (natKey_injective e).symm), ih' (j + 1)]
+        by_cases hlt : n < j
+        · rw [if_pos hlt, if_pos (by omega)]
+        · rw [if_neg hlt, if_neg (by omega)]
+          have : n - j = (n - (j + 1)) + 1 := by omega
+          rw [this, List.getElem?_cons_succ]
+
+theorem trimDash_cons (c : Byte) (r : Bytes) : trimDash (c :: r) = if c = 45 then r else c :: r := by
+  unfold trimDash
+  split
+  · next h => cases h; simp
+  · next h =>
+    rw [if_neg]
+    intro hc; subst hc; exact h _ rfl
+
+theorem splitEq_key (k v : Bytes) (hk : eq ∉ k) : splitEq (k ++ eq :: v) = (k, v) := by
+  unfold splitEq
+  rw [span_first (fun x => decide (x ≠ eq)) k eq v
+    (fun x hx => decide_eq_true (show x ≠ eq from fun e => hk (e ▸ hx)))
+    (decide_eq_false (fun h => h rfl))]
+
+/-- the three spellings `k=v`, `-k=v`, `--k=v` -/
+def Dashes (d : Bytes) : Prop := d = [] ∨ d = [45] ∨ d = [45, 45]
+
+theorem named_split (d k v : Bytes) (hd : Dashes d) (hk : eq ∉ k) (h45 : k.head? ≠ some 45) :
+    splitEq (trimDash (trimDash (d ++ k ++ eq :: v))) = (k, v) := by
+  have hnd : trimDash (k ++ eq :: v) = k ++ eq :: v := by
+    cases k with
+    | nil => rw [List.nil_append, trimDash_cons, if_neg (by decide)]
+    | cons c k => rw [List.cons_append, trimDash_cons, if_neg (by simpa using h45)]
+  rcases hd with rfl | rfl | rfl
+  · rw [List.nil_append, hnd, hnd, splitEq_key k v hk]
+  · rw [List.append_assoc, List.singleton_append, trimDash_cons, if_pos rfl, hnd, splitEq_key k v hk]
+  · have : [45, 45] ++ k ++ eq :: v = 45 :: 45 :: (k ++ eq :: v) := by simp
+    rw [this, trimDash_cons, if_pos rfl, trimDash_cons, if_pos rfl, splitEq_key k v hk]
+
+theorem named_contains (d k v : Bytes) : (d ++ k ++ eq :: v).contains eq = true := by
+  simp
+
 end Goat.Args
